@@ -186,6 +186,12 @@ fn parse_response(raw: &[u8]) -> std::io::Result<HttpResponse> {
     })
 }
 
+/// Verification hook: exposes the private response parser to the external harness.
+#[cfg(feature = "verif-hooks")]
+pub fn verif_parse_response(raw: &[u8]) -> std::io::Result<HttpResponse> {
+    parse_response(raw)
+}
+
 fn invalid(msg: &str) -> std::io::Error {
     std::io::Error::new(std::io::ErrorKind::InvalidData, msg.to_string())
 }
